@@ -74,6 +74,7 @@ impl Checker {
                 call_key.feed_prev = false;
                 call_key.via_clone = false; // the reference is always a fresh formatter in a fresh process
                 call_key.nest = None; // ... and makes no nested call: the outer result must not depend on one
+                call_key.own_source = false; // (no shared Source exists in the reference process anyway)
                 let call = &call_key;
                 let (ra, rb) = self.reference(call, text)?;
                 if ra != rb {
@@ -108,7 +109,7 @@ impl Checker {
                 }
                 // the call nested inside this one's inspector, against its own single-call reference
                 if let (Some((idoc, icfg)), Some(Some(inner))) = (&script[ci].nest, out.inner_results.get(tid).and_then(|r| r.get(ci))) {
-                    let icall = Call { op: super::Op::Content, doc: *idoc % sc.docs.len(), cfg: *icfg, feed_prev: false, via_clone: false, nest: None };
+                    let icall = Call { op: super::Op::Content, doc: *idoc % sc.docs.len(), cfg: *icfg, feed_prev: false, via_clone: false, nest: None, own_source: false };
                     let itext = sc.docs[icall.doc].as_str();
                     let (ia, ib) = self.reference(&icall, itext)?;
                     if ia == ib && ia != Res::Panic {
